@@ -121,6 +121,7 @@ class Ctx(object):
         self.prop = prop
         self.tier = tier
         self.config = config
+        apply_adt_moves(facts)
         apply_aliases(facts)
         apply_field_aliases(facts)
         self.fns = {}
@@ -628,6 +629,44 @@ def apply_aliases(facts):
     walk(facts['fns'])
     meta['aliases'] = ren
     return ren
+
+
+def adt_shape(a):
+    """Shape of a type that does not mention where it lives: (is_enum, [(variant, [(field, type with own path as Self)])])"""
+    me = S.norm_path(a['path'])
+    return [bool(a.get('is_enum')), [[v['name'], [[f['name'], re.sub(r'(?<![\w:])' + re.escape(me) + r'(?![\w])', 'Self', S.norm_path(f['ty']) if False else f['ty'])] for f in v['fields']]] for v in a.get('variants') or []]]
+
+
+def apply_adt_moves(facts):
+    """A type of the oracle vocabulary that is gone while exactly one unknown type of the same name and the same shape exists
+    elsewhere in the crate was moved to another module: read it under its old path. Returns the (possibly rewritten) facts."""
+    meta = facts.setdefault('meta', {})
+    if meta.get('adt_moves') is not None:
+        return facts
+    meta['adt_moves'] = {}
+    try:
+        with open(os.path.join(VERIF, 'spec', 'vocabulary_adts.json')) as fh:
+            vocab = json.load(fh)
+    except (IOError, ValueError):
+        return facts
+    have = {S.norm_path(a['path']): a for a in facts['adts'] if not a.get('cfg_test')}
+    missing = [m for m in vocab if m not in have]
+    new = [n for n in have if n not in vocab]
+    ren = {}
+    for m in missing:
+        cs = [n for n in new if n.split('::')[-1] == m.split('::')[-1] and adt_shape(have[n]) == vocab[m] and n.split('::')[0] == m.split('::')[0]]
+        if len(cs) == 1 and len([m2 for m2 in missing if m2.split('::')[-1] == m.split('::')[-1]]) == 1:
+            ren[cs[0]] = m
+    if not ren:
+        return facts
+    txt = json.dumps(facts)
+    for n, m in sorted(ren.items(), key=lambda kv: -len(kv[0])):
+        txt = re.sub(r'(?<![\w:])' + re.escape(n) + r'(?![\w])', m, txt)
+    out = json.loads(txt)
+    out.setdefault('meta', {})['adt_moves'] = ren
+    facts.clear()
+    facts.update(out)  # in place: the fact set is shared by every property evaluated on it
+    return facts
 
 
 def apply_field_aliases(facts):
